@@ -81,3 +81,19 @@ theorem drawInt_ok {α : Type} (lo hi : Int) (s s' : List (Draw α)) (v : Nat) (
           obtain ⟨rfl, rfl⟩ := h
           simp only [Bool.or_eq_true, decide_eq_true_eq, not_or] at hb
           exact ⟨Int.not_lt.mp hb.1, Int.not_lt.mp hb.2, rfl⟩
+
+/-- a successful bind decomposes into two successful steps -/
+theorem StateT_bind_ok {σ ε β γ : Type} (x : StateT σ (Except ε) β) (f : β → StateT σ (Except ε) γ) (s s' : σ) (c : γ)
+    (h : (x >>= f).run s = .ok (c, s')) : ∃ a s1, x.run s = .ok (a, s1) ∧ (f a).run s1 = .ok (c, s') := by
+  simp only [StateT.run_bind] at h
+  cases hx : x.run s with
+  | error e => rw [hx] at h; simp [bind, Except.bind] at h
+  | ok p =>
+    obtain ⟨a, s1⟩ := p
+    rw [hx] at h
+    exact ⟨a, s1, rfl, by simpa [bind, Except.bind] using h⟩
+
+theorem StateT_pure_ok {σ ε β : Type} (a b : β) (s s' : σ) (h : (pure a : StateT σ (Except ε) β).run s = .ok (b, s')) :
+    a = b ∧ s = s' := by
+  simp [pure, StateT.pure, Except.pure, StateT.run] at h
+  exact h
